@@ -7,7 +7,7 @@
     is outside the model (the property says "up to rounding"). *)
 From Coq Require Import Reals List QArith Qreals.
 From SV Require Import Rot.RotBase Gen.RotFormulas_gen Rot.RotAlgebra Rot.RotAliasProofs Rot.RotEuler Rot.RotEulerProofs
-  Rot.RotDispatch Rot.RotDispatchProofs Rot.RotMixedProofs Gen.RotDispatch_gen Rot.RotGJ Rot.RotGJProofs Rot.RotGJTotal Rot.RotGJTotalProofs Rot.RotGJExample
+  Rot.RotDispatch Rot.RotDispatchProofs Rot.RotMixedProofs Rot.RotInplace Rot.RotCopies Rot.RotMethods Rot.RotMethodsProofs Gen.RotDispatch_gen Rot.RotGJ Rot.RotGJProofs Rot.RotGJTotal Rot.RotGJTotalProofs Rot.RotGJExample Rot.RotRoundEuler Rot.RotProperty
   Rot.RotReify Gen.RotReified_gen Rot.RotReifyProofs
   Rot.RotRound Rot.RotRoundProofs Rot.RotRoundFlocq Gen.RotRounded_gen Rot.RotRoundTied.
 Import ListNotations.
@@ -134,10 +134,84 @@ Proof. exact dispatch_handled. Qed.
 Theorem c04_dispatch_complete : forall tbl, table_ok tbl = true -> forall f l r,
   exists t, In t tbl /\ t_form t = f /\ t_l t = l /\ t_r t = r /\ t_alias t = false.
 Proof. exact dispatch_complete. Qed.
+(** In-place variants (round 4).  For an accepted table, `l @= r` on a supported pair returns a value; when the class of
+    [l] is mutable (Vec, Angle, Matrix) the object returned is the receiver itself and the receiver's final value is the
+    specification product, so every alias of it holds the product; when it is frozen or a tuple the result is a new object
+    and the receiver keeps its value. *)
+Theorem c04_inplace_stores_into_self : forall atan2 tbl, table_ok tbl = true -> forall t, In t tbl ->
+  t_form t = FImatmul -> expected (t_l t) (t_r t) (t_alias t) <> None ->
+  exists c i v fl fr, t_out t = OValue c i v fl fr /\
+    i = (if mutable (t_l t) then IdL else IdFresh) /\
+    forall L R, well_kinded (kind_of (t_l t)) L -> well_kinded (kind_of (t_r t)) R -> (t_alias t = true -> R = L) ->
+      denote atan2 L R v = spec atan2 L R /\ spec atan2 L R <> None /\
+      denote atan2 L R fl = (if mutable (t_l t) then spec atan2 L R else Some L).
+Proof. exact dispatch_inplace. Qed.
+(** ... and the in-place variant denotes the same value as the pure one: the rows of `l @ r` and `l @= r` return equal
+    values; `@` returns a new object and leaves its receiver alone; the mutable receiver of `@=` ends up holding exactly the
+    value `@` returns. *)
+Theorem c04_inplace_agrees_with_pure : forall atan2 tbl, table_ok tbl = true -> forall t1 t2, In t1 tbl -> In t2 tbl ->
+  t_form t1 = FMatmul -> t_form t2 = FImatmul -> t_l t1 = t_l t2 -> t_r t1 = t_r t2 -> t_alias t1 = t_alias t2 ->
+  expected (t_l t2) (t_r t2) (t_alias t2) <> None ->
+  exists c1 v1 fl1 fr1 c2 i2 v2 fl2 fr2,
+    t_out t1 = OValue c1 IdFresh v1 fl1 fr1 /\ t_out t2 = OValue c2 i2 v2 fl2 fr2 /\
+    i2 = (if mutable (t_l t2) then IdL else IdFresh) /\
+    forall L R, well_kinded (kind_of (t_l t2)) L -> well_kinded (kind_of (t_r t2)) R -> (t_alias t2 = true -> R = L) ->
+      denote atan2 L R v1 = denote atan2 L R v2 /\ denote atan2 L R fl1 = Some L /\
+      denote atan2 L R fl2 = (if mutable (t_l t2) then denote atan2 L R v1 else Some L).
+Proof. exact inplace_agrees_with_pure. Qed.
+(** The shape of seeded fault c04_5 / of the pinned `Angle @= FrozenMatrix`: a mutable receiver that falls back to the fresh
+    result of `@` (value right, receiver untouched) is rejected - as is a frozen receiver that is returned itself. *)
+Example c04_inplace_fallback_refuted :
+  let e := TToAngle (TMatMul (TFromAngle TL) TR) in
+  inplace_ok (Triple FImatmul CAngle CMatrix false (OValue CAngle IdFresh e TL TR)) = false /\
+  triple_ok (Triple FImatmul CAngle CMatrix false (OValue CAngle IdFresh e TL TR)) = true /\
+  inplace_ok (Triple FImatmul CAngle CMatrix false (OValue CAngle IdL e e TR)) = true /\
+  inplace_ok (Triple FImatmul CFrozenAngle CMatrix false (OValue CFrozenAngle IdL e e TR)) = false.
+Proof. repeat split. Qed.
+(** The census of ALL in-place operator methods of the operand classes (`+= -= *= /= //= %= @=`; Gen/RotInplace_gen.v, read
+    from the class bodies and the expanded exec() templates on every run): for an accepted census every in-place method
+    belongs to mutable classes only (no frozen class has or inherits one, so `frozen op= x` is the pure operator), updates the
+    receiver on some path, and every path either defers (NotImplemented) or returns the receiver after storing into it. *)
+Theorem c04_inplace_census_sound : forall c, census_ok c = true -> forall m, In m c ->
+  im_mutable m = true /\ im_frozen_reach m = false /\
+  (exists p, In p (im_paths m) /\ p <> PNotImplemented) /\
+  forall p, In p (im_paths m) -> p = PNotImplemented \/ exists n, p = PSelf (S n).
+Proof. exact census_ok_sound. Qed.
+(** Matrix conversions (round 4; Gen/RotCopies_gen.v: copy, __deepcopy__, freeze, thaw, _new_copy classified by symbolic
+    execution as `return self` or a field-for-field new matrix): for an accepted table a mutable matrix is never handed out as
+    its own copy, _new_copy (what `@` multiplies in place) is a new object of the receiver's class also for a frozen matrix,
+    freeze gives a FrozenMatrix and thaw a Matrix. *)
+Theorem c04_matrix_copies_sound : forall t, copies_ok t = true -> forall r, In r t ->
+  (cr_frozen r = false -> cr_alias r = false) /\
+  (cr_meth r = CNewCopy -> cr_alias r = false /\ cr_result_frozen r = cr_frozen r) /\
+  (cr_meth r = CFreeze -> cr_result_frozen r = true) /\ (cr_meth r = CThaw -> cr_result_frozen r = false).
+Proof. exact copies_ok_sound. Qed.
+(** The in-place rotation METHODS (round 4; Gen/RotMethods_gen.v: the bodies of Vec.localise, Vec.transform(),
+    Angle.transform() and Vec.rotate executed symbolically on every run, the body of `with x.transform() as m:` being
+    `m @= rot`): for an accepted table the receiver ends up holding the pure form - `v @ angles + origin`, `v @ rot`,
+    `a @ rot` (through the Euler extraction), `v @ Angle(p, y, r)` - and the rotation argument keeps its value. *)
+Theorem c04_inplace_methods_sound : forall atan2 t, methods_ok t = true -> forall r, In r t ->
+  forall S Rt O rm, rot_mat (mr_rot r) Rt = Some rm -> method_spec atan2 (mr_meth r) S O rm <> None ->
+    mdenote atan2 S Rt O (mr_self r) = method_spec atan2 (mr_meth r) S O rm /\ mdenote atan2 S Rt O (mr_rot_final r) = Some Rt.
+Proof. exact methods_ok_sound. Qed.
 (** x @ Angle is x @ Matrix.from_angle(Angle). *)
 Theorem c04_angle_operand_is_from_angle : forall atan2 L a,
   spec atan2 L (VAng a) = spec atan2 L (VMat (from_angle_obj a)).
 Proof. exact spec_angle_is_from_angle. Qed.
+(** ... and not only over the reals: the two are the same computation.  For every interpretation of the table terms over
+    arbitrary carriers and operations (e.g. IEEE binary64 with the float from_angle / _to_angle / _mat_mul / _vec_rot), the
+    value of an accepted row with an Angle (Angle or FrozenAngle) on the right equals the value of the row with a Matrix on
+    the right at [from_angle] of the angle - bit for bit when the interpretation is the float one. *)
+Theorem c04_angle_operand_same_computation :
+  forall (GV GM GA : Type) (fa : GA -> GM) (ta : GM -> GA) (mm : GM -> GM -> GM) (mms : GM -> GM) (vr : GM -> GV -> GV)
+    tbl, table_ok tbl = true -> forall t1 t2, In t1 tbl -> In t2 tbl ->
+    t_form t1 = t_form t2 -> t_l t1 = t_l t2 -> kind_of (t_r t1) = KA -> kind_of (t_r t2) = KM ->
+    t_alias t1 = false -> t_alias t2 = false ->
+    forall c1 i1 v1 fl1 fr1 c2 i2 v2 fl2 fr2,
+      t_out t1 = OValue c1 i1 v1 fl1 fr1 -> t_out t2 = OValue c2 i2 v2 fl2 fr2 ->
+      forall L a, gdenote GV GM GA fa ta mm mms vr L (GAng GV GM GA a) v1
+                = gdenote GV GM GA fa ta mm mms vr L (GMat GV GM GA (fa a)) v2.
+Proof. exact angle_operand_same_computation. Qed.
 (** (v @ A) @ B = v @ (A @ B) for A a Matrix (exact) ... *)
 Theorem c04_mixed_assoc_matrix : forall atan2 v x B m, rhs_mat B = Some m ->
   spec atan2 (VMat x) B = Some (VMat (mat_mul x m)) /\
@@ -194,12 +268,43 @@ Theorem c04_from_angle_binary64_error : forall d tol, errs_within_in 1 d tol fro
   let ex := nth i (let m := from_angle p y r in [aa m; ab m; ac m; ba m; bb m; bc m; ca m; cb m; cc m]) 0 in
   Rabs (fl - ex) <= Q2R tol /\ Rabs fl <= 1 + Q2R tol.
 Proof. exact from_angle_binary64_error. Qed.
+(** Matrix -> Angle -> Matrix in binary64, outside the gimbal band (round 4): the exact Euler round trip composed with the
+    bound above.  For an exact rotation [m] with horizontal length > 0.001: if the six sin / cos values the float from_angle
+    runs on are within [d] of the real sin / cos of the exact Euler angles of [m] (this hypothesis contains the float error of
+    _to_angle's atan2 / degrees / % 360 and of radians / sin / cos; the check measures it against 60-digit arithmetic on every
+    run: about 1.5e-15, also for horizontal lengths down to 0.0011), every entry of the float matrix is within [tol] of [m]
+    (obligation: 2e-13 for d = 2e-14). *)
+Theorem c04_euler_roundtrip_binary64 : forall atan2, atan2_spec atan2 ->
+  forall d tol, errs_within_in 1 d tol from_angle_fe = true ->
+  forall m, rotation m -> horiz m > 1 / 1000 ->
+  forall inp,
+    (forall n, Rabs (inp n - from_angle_inputs (a_pitch (to_angle atan2 m)) (a_yaw (to_angle atan2 m))
+                                               (a_roll (to_angle atan2 m)) n) <= Q2R d) ->
+  forall i, (i < 9)%nat ->
+    Rabs (nth i (map (fe_fl rnd64 inp) from_angle_fe) 0
+          - nth i [aa m; ab m; ac m; ba m; bb m; bc m; ca m; cb m; cc m] 0) <= Q2R tol.
+Proof. exact euler_roundtrip_binary64. Qed.
 Theorem c04_from_angle_trees_tied : forall p y r,
   map (fe_exact (from_angle_inputs p y r)) from_angle_fe =
   (let m := from_angle p y r in [aa m; ab m; ac m; ba m; bb m; bc m; ca m; cb m; cc m]).
 Proof. exact from_angle_fe_tied. Qed.
 Theorem c04_rotation_entries_within_1 : forall m, rotation m -> mat_within 1 m.
 Proof. exact rotation_within_1. Qed.
+
+(** ** The whole property in one statement (round 4): [c04_statement] (Rot/RotProperty.v) is the conjunction of: from_angle is a
+    proper rotation equal to roll * pitch * yaw; rotation composes associatively; x @ Angle = x @ Matrix.from_angle(Angle);
+    every row of the dispatch table denotes the specification product with fresh results / untouched operands, @= on a mutable
+    receiver returns the receiver holding the product and on a frozen receiver a new object, the table is complete, every
+    in-place operator method belongs to mutable classes only and returns the receiver it stored into; the in-place rotation
+    methods leave the pure operator form in the receiver; Matrix -> Angle ->
+    Matrix is exact outside the gimbal band and within 2 * horizontal length inside; inverse() returns transpose() on every
+    rotation.  Hypotheses: atan2 by its specification and the five acceptance tests of the objects read from math.py;
+    Props/C04Today.v proves the five tests for today's generated objects. *)
+Theorem c04_property : forall atan2 tbl prog census methods,
+  atan2_spec atan2 -> table_ok tbl = true -> gj_prog_ok prog = true -> gj_total_ok prog = true -> census_ok census = true ->
+  methods_ok methods = true ->
+  c04_statement atan2 tbl prog census methods.
+Proof. exact c04_whole_property. Qed.
 
 (** Non-vacuity of the Gauss-Jordan theorems: a program equal to today's generated one is accepted and inverse() returns on
     the identity (which is a rotation). *)
